@@ -350,9 +350,13 @@ def run_direct(ctx):
         if note == "contract":
             ctx.disagree("direct-contract", case, "factorisation contract violated numerically", None)
             continue
+        b_in = b.copy()
+        if not np.iscomplexobj(b) and np.all(b == np.round(b)) and (n + int(np.abs(b).sum())) % 2 == 0:
+            b_in = b.astype(np.int64)      # an integer-typed right-hand side (unit loads, np.eye(n, dtype=int)): same system
+            ctx.branch("rhs_integer_dtype")
         with warnings.catch_warnings():
             warnings.simplefilter("ignore")
-            r = call_impl(s.solve, b.copy(), trans=trans)
+            r = call_impl(s.solve, b_in, trans=trans)
         cond = float(np.linalg.cond(A))
         if r[0] == "ok":
             oracle_solution(ctx, f"{type(s).__name__}.solve(trans={trans})", A, b, r[1], trans, cond, case)
